@@ -817,6 +817,22 @@ func (sc *scen) runStep(si int, st *step) {
 	got := map[[4]uint64]int{}
 	scanJ := map[[4]uint64]bool{}
 	reobsJ := map[[4]uint64]bool{}
+	reobsWhy := map[[4]uint64]string{}
+	// receipt lookups issued by the per-head scans of this step, and the others (a re-observation request's own lookup)
+	var scanLookups, otherLookups []lookupRec
+	for gi := lk0; gi < len(allLk); gi++ {
+		inScan := false
+		for _, s := range scans {
+			if gi >= s.From && gi < s.To {
+				inScan = true
+			}
+		}
+		if inScan {
+			scanLookups = append(scanLookups, allLk[gi])
+		} else {
+			otherLookups = append(otherLookups, allLk[gi])
+		}
+	}
 	for _, m := range fw {
 		l := sc.logs[m.Body]
 		if l == nil {
@@ -837,7 +853,7 @@ func (sc *scen) runStep(si int, st *step) {
 		inst := sc.insts[key]
 		why := "no-receipt-lookup"
 		if inst != nil && inst.awaiting {
-			for _, lk := range lookups {
+			for _, lk := range scanLookups {
 				if lk.Kind != kindTx || lk.Tx != l.Tx {
 					continue
 				}
@@ -863,7 +879,7 @@ func (sc *scen) runStep(si int, st *step) {
 		}
 		if st.Op == "reobs" && st.Tx == l.Tx {
 			rwhy := "no-receipt"
-			for _, lk := range lookups {
+			for _, lk := range otherLookups {
 				if lk.Kind != kindTx || lk.Tx != l.Tx || lk.Code != 2 {
 					continue
 				}
@@ -878,6 +894,7 @@ func (sc *scen) runStep(si int, st *step) {
 					reobsJ[key] = true
 				}
 			}
+			reobsWhy[key] = rwhy
 			if !reobsJ[key] && !scanJ[key] {
 				sc.monf("safety:reobs:"+rwhy, "step %d: re-observation of tx %d forwarded body %d (%s); lookups %+v", si, st.Tx, m.Body, rwhy, lookups)
 				continue
@@ -897,7 +914,11 @@ func (sc *scen) runStep(si int, st *step) {
 			max++
 		}
 		if max > 0 && n > max {
-			sc.monf("safety:forwarded-twice", "step %d: message of tx %d seq %d forwarded %d times in one step", si, key[0], key[3], n)
+			if rw, isReobs := reobsWhy[key]; isReobs && !reobsJ[key] {
+				sc.monf("safety:reobs:"+rw, "step %d: re-observation of tx %d forwarded the message of seq %d (%s) in addition to the per-head scan; lookups %+v", si, key[0], key[3], rw, lookups)
+			} else {
+				sc.monf("safety:forwarded-twice", "step %d: message of tx %d seq %d forwarded %d times in one step", si, key[0], key[3], n)
+			}
 		}
 	}
 	// (b) liveness and drops, scan by scan
@@ -958,6 +979,21 @@ func (sc *scen) runStep(si int, st *step) {
 					sc.monf("liveness:forwarded-still-pending", "step %d: tx %d forwarded but still pending", si, inst.log.Tx)
 				}
 				inst.awaiting = false
+			}
+		}
+	}
+	// (b') the watcher stopped processing heads although a confirmable message is pending (10 s without a scan at a 1 ms poll interval)
+	if len(sc.harness) > 0 && strings.Contains(sc.harness[len(sc.harness)-1], "rendezvous timeout") {
+		sim.mu.Lock()
+		lastProc := sim.lastProcessed
+		sim.mu.Unlock()
+		for key, inst := range sc.insts {
+			_, stillPending := pend[key]
+			r := rcptOf(inst.log.Tx)
+			if inst.awaiting && stillPending && lastProc < headNow && inst.block+sc.expected(inst.log.CL) <= headNow && r != nil && r.Status == 1 && r.BH == inst.bh {
+				sc.monf("liveness:head-never-processed", "step %d (%s): the node's head is %d, the last head the watcher processed is %d (nothing for %v), tx %d (block %d, level %d, receipt unchanged) is still pending",
+					si, st.Op, headNow, lastProc, rendezvousTimeout, inst.log.Tx, inst.block, inst.log.CL)
+				break
 			}
 		}
 	}
@@ -1232,6 +1268,8 @@ func corpus() []struct {
 	}
 }
 
+var machineryFailures int64
+
 func TestVerifC10(t *testing.T) {
 	out := newEvmOut(t)
 	defer out.close()
@@ -1261,9 +1299,9 @@ func TestVerifC10(t *testing.T) {
 		for i, c := range corpus() {
 			jobs = append(jobs, job{i, c.cfg, c.script})
 		}
-		n := 260
+		n := 600
 		if evmThorough() {
-			n = 2500
+			n = 6000
 		}
 		probe := NewEthWatcher("", evmContract, "", "", 0, nil, nil, nil, true, nil, false)
 		for i := 0; i < n; i++ {
@@ -1281,7 +1319,14 @@ func TestVerifC10(t *testing.T) {
 		go func() {
 			defer wg.Done()
 			for j := range ch {
-				out.emit(runScenario(j.sid, j.cfg, j.script))
+				if atomic.LoadInt64(&machineryFailures) >= 24 {
+					continue // the watcher does not respond any more: the histories run so far show it, the rest would only wait for timeouts
+				}
+				row := runScenario(j.sid, j.cfg, j.script)
+				if len(row.Harness) > 0 {
+					atomic.AddInt64(&machineryFailures, 1)
+				}
+				out.emit(row)
 			}
 		}()
 	}
